@@ -60,6 +60,8 @@ var funcTargets = []funcTarget{
 	{pkg: "gws", recv: "Conn", name: "emitMessage", conds: true},
 	{pkg: "gws", recv: "Conn", name: "compressData", conds: true},
 	{pkg: "internal", name: "binaryCeil"},
+	{pkg: "internal", name: "ToBinaryNumber"},
+	{pkg: "internal", name: "BinaryPow"},
 	{pkg: "internal", name: "Min"},
 	{pkg: "internal", name: "Max"},
 	{pkg: "internal", recv: "StatusCode", name: "Bytes"},
@@ -525,6 +527,66 @@ func (t *ftr) stmts(list []ast.Stmt, k string) string {
 			return rest()
 		}
 		return t.fail("expression statement")
+	case *ast.ForStmt:
+		if s.Init != nil {
+			noInit := *s
+			noInit.Init = nil
+			return t.stmts(append([]ast.Stmt{s.Init, &noInit}, list[1:]...), k)
+		}
+		if s.Cond == nil {
+			return t.fail("for without condition")
+		}
+		// the loop state: every identifier assigned in the body or the post statement
+		set := map[string]bool{}
+		var collect func(n ast.Node) bool
+		collect = func(n ast.Node) bool {
+			switch x := n.(type) {
+			case *ast.AssignStmt:
+				for _, l := range x.Lhs {
+					if id, ok := l.(*ast.Ident); ok {
+						set["v_"+id.Name] = true
+					}
+				}
+			case *ast.IncDecStmt:
+				if id, ok := x.X.(*ast.Ident); ok {
+					set["v_"+id.Name] = true
+				}
+			case *ast.ReturnStmt, *ast.BranchStmt:
+				t.fail("return/break/continue inside a loop")
+			}
+			return true
+		}
+		ast.Inspect(s.Body, collect)
+		if s.Post != nil {
+			ast.Inspect(s.Post, collect)
+		}
+		var vars []string
+		for v := range set {
+			vars = append(vars, v)
+		}
+		sort.Strings(vars)
+		if len(vars) == 0 {
+			return t.fail("loop without state")
+		}
+		tup := vars[0]
+		bind := "let " + vars[0] + " := st in"
+		if len(vars) > 1 {
+			tup = "(" + strings.Join(vars, ", ") + ")"
+			bind = "let '" + tup + " := st in"
+		}
+		body := append([]ast.Stmt{}, s.Body.List...)
+		if s.Post != nil {
+			body = append(body, s.Post)
+		}
+		cond := t.expr(s.Cond)
+		step := t.stmts(body, tup)
+		pat := vars[0]
+		if len(vars) > 1 {
+			pat = "'" + tup
+		}
+		// bounded iteration: 200 rounds cover every loop over the bits of a machine word; a loop that needs more leaves the
+		// state of round 200 (the lemmas state the range of inputs they cover)
+		return fmt.Sprintf("(let %s := gf_loop 200 (fun st => %s %s) (fun st => %s %s) %s in\n   %s)", pat, bind, cond, bind, step, tup, rest())
 	}
 	return t.fail("unsupported statement %T", list[0])
 }
@@ -555,6 +617,7 @@ func genFuncs(pkgs []*packages.Package) string {
 	var b strings.Builder
 	b.WriteString("(* GENERATED by /verif/translator (funcs.go) from /repo on every run - do not edit.\n   Go integer semantics over Z: unsigned results reduced mod 2^width, int = mathematical integer. *)\n")
 	b.WriteString("From Coq Require Import ZArith List Bool.\nImport ListNotations.\nLocal Open Scope Z_scope.\nLocal Open Scope bool_scope.\n\n")
+	b.WriteString("(* `for cond { body }`: at most `fuel` rounds *)\nFixpoint gf_loop {S : Type} (fuel : nat) (cond : S -> bool) (body : S -> S) (s : S) : S :=\n  match fuel with O => s | Datatypes.S f => if cond s then gf_loop f cond body (body s) else s end.\n\n")
 	var unsupported []string
 	for _, tg := range funcTargets {
 		var fd *ast.FuncDecl
